@@ -46,6 +46,19 @@ pub fn res_name(r: &Result<(), SimErr>) -> &'static str {
 #[derive(Clone, Copy, Default, Debug)]
 pub struct IntCmd { pub k: u8, pub vect: u8, pub prio: u8 }
 
+/// State of a harness interrupt device: a fixed answer for single steps, or a
+/// script indexed by the poll number for run-style calls (which may also clear
+/// the MCR at a given poll, standing for another thread doing so).
+#[derive(Default)]
+pub struct IntState {
+    pub cmd: IntCmd,
+    pub scripted: bool,
+    pub polls: u32,
+    pub script: std::collections::HashMap<u32, IntCmd>,
+    pub clr_at: u32,
+    pub mcr: Option<lc3_ensemble::sim::MCR>,
+}
+
 #[derive(Debug)]
 struct ExtErr;
 impl std::fmt::Display for ExtErr {
@@ -63,7 +76,13 @@ impl ExternalDevice for RegDev {
 }
 
 thread_local! { pub static PAIR_TAG: std::cell::RefCell<String> = std::cell::RefCell::new("none".to_string()); }
-pub fn set_pair_tag(t: &str) { PAIR_TAG.with(|p| *p.borrow_mut() = t.to_string()); }
+thread_local! { static PAIR_POS: std::cell::Cell<u32> = const { std::cell::Cell::new(0) }; }
+pub fn set_pair_tag(t: &str) { PAIR_TAG.with(|p| *p.borrow_mut() = t.to_string()); PAIR_POS.with(|c| c.set(0)); }
+fn next_pair_pos() -> &'static str {
+    let tagged = PAIR_TAG.with(|p| p.borrow().as_str() != "none");
+    if !tagged { return "-"; }
+    PAIR_POS.with(|c| { let v = c.get(); c.set(v + 1); if v % 2 == 0 { "A" } else { "B" } })
+}
 
 pub struct Flags { pub strict: bool, pub real: bool, pub dbg: bool, pub ignp: bool }
 impl Flags {
@@ -80,7 +99,7 @@ pub struct M {
     shadow: Vec<Word>,
     pub kbd: Arc<RwLock<VecDeque<u8>>>,
     pub disp: Arc<RwLock<Vec<u8>>>,
-    pub intfns: Vec<Arc<Mutex<IntCmd>>>,
+    pub intfns: Vec<Arc<Mutex<IntState>>>,
     pub timers: Vec<Arc<RwLock<TimerDevice>>>,
     pub timer_cfg: Vec<(u32, u32)>,
     pub devs: Vec<Value>,
@@ -141,7 +160,7 @@ impl M {
         };
         let p = m.proj_with(false);
         out.emit(json!({
-            "ev": "New", "run": run, "pair": PAIR_TAG.with(|p| p.borrow().clone()),
+            "ev": "New", "run": run, "pair": PAIR_TAG.with(|p| p.borrow().clone()), "pairpos": next_pair_pos(),
             "flags": Flags::of(&flags).json(), "init": init,
             "fill": w(fill), "segs": segs, "devs": m.devs,
             "ports": [[0xFE00, 1], [0xFE02, 1], [0xFE04, 2], [0xFE06, 2]],
@@ -176,7 +195,23 @@ impl M {
     }
     pub fn add_breakpoint_pc(&mut self, out: &mut Out, pc: u16) {
         self.sim.breakpoints.insert(lc3_ensemble::sim::debug::Breakpoint::PC(pc));
-        self.host(out, json!({"op": "addbp", "k": "pc", "v": pc}));
+        self.host(out, json!({"op": "addbp", "bp": {"k": "pc", "a": pc, "c": {"k": "never", "v": 0}}}));
+    }
+    fn cmp_of(k: &str, v: u16) -> lc3_ensemble::sim::debug::Comparator {
+        use lc3_ensemble::sim::debug::Comparator as C;
+        match k { "never" => C::Never, "lt" => C::Lt(v), "eq" => C::Eq(v), "le" => C::Le(v), "gt" => C::Gt(v),
+                  "ne" => C::Ne(v), "ge" => C::Ge(v), _ => C::Always }
+    }
+    /// kind: "reg" (a = register) or "mem" (a = address), comparator name and operand.
+    pub fn add_breakpoint_cmp(&mut self, out: &mut Out, kind: &str, a: u16, ck: &str, cv: u16) {
+        use lc3_ensemble::sim::debug::Breakpoint as B;
+        let bp = if kind == "reg" { B::Reg { reg: reg(a as u8), value: Self::cmp_of(ck, cv) } } else { B::Mem { addr: a, value: Self::cmp_of(ck, cv) } };
+        self.sim.breakpoints.insert(bp);
+        self.host(out, json!({"op": "addbp", "bp": {"k": kind, "a": a, "c": {"k": ck, "v": cv}}}));
+    }
+    pub fn remove_breakpoint_pc(&mut self, out: &mut Out, pc: u16) {
+        self.sim.breakpoints.remove(&lc3_ensemble::sim::debug::Breakpoint::PC(pc));
+        self.host(out, json!({"op": "rmbp", "bp": {"k": "pc", "a": pc, "c": {"k": "never", "v": 0}}}));
     }
     pub fn set_mcr(&mut self, out: &mut Out, v: bool) {
         self.sim.mcr().store(v, std::sync::atomic::Ordering::Relaxed);
@@ -302,7 +337,7 @@ impl M {
     }
     pub fn env_json(&self, lock_k: bool, lock_d: bool) -> Value {
         json!({"lockK": lock_k as u8, "lockD": lock_d as u8,
-               "ints": self.intfns.iter().map(|c| { let c = *c.lock().unwrap(); json!({"k": c.k, "vect": c.vect, "prio": c.prio}) }).collect::<Vec<_>>(),
+               "ints": self.intfns.iter().map(|c| { let c = c.lock().unwrap().cmd; json!({"k": c.k, "vect": c.vect, "prio": c.prio}) }).collect::<Vec<_>>(),
                "draws": self.timers.iter().map(|t| t.read().unwrap().get_remaining()).collect::<Vec<_>>()})
     }
     pub fn ctx_json(c: &MemAccessCtx) -> Value {
@@ -352,10 +387,17 @@ impl M {
         self.host(out, json!({"op": "munmap", "a": a, "res": if res { "ok" } else { "err" }}));
     }
     pub fn add_intfn(&mut self, out: &mut Out) -> usize {
-        let cmd = Arc::new(Mutex::new(IntCmd::default()));
+        let cmd = Arc::new(Mutex::new(IntState::default()));
         let c2 = cmd.clone();
         let dev = InterruptFromFn::new(move || {
-            let c = *c2.lock().unwrap();
+            let mut st = c2.lock().unwrap();
+            let c = if st.scripted {
+                st.polls += 1;
+                if st.polls == st.clr_at {
+                    if let Some(m) = &st.mcr { m.store(false, std::sync::atomic::Ordering::Relaxed); }
+                }
+                st.script.get(&st.polls).copied().unwrap_or_default()
+            } else { st.cmd };
             match c.k {
                 1 => Some(Interrupt::vectored(c.vect, c.prio)),
                 2 => Some(Interrupt::external(ExtErr)),
@@ -429,10 +471,69 @@ impl M {
             }
         }
     }
-    pub fn set_int(&mut self, slot: usize, c: IntCmd) { *self.intfns[slot - 1].lock().unwrap() = c; }
+    pub fn set_int(&mut self, slot: usize, c: IntCmd) { self.intfns[slot - 1].lock().unwrap().cmd = c; }
+
+    /// A run-style call (`run`, `run_with_limit`, `step_over`, `step_out`, `run_while(pc != a)`).
+    /// Interrupt device 1 follows `script` (poll number -> interrupt) and clears the MCR
+    /// at poll `clr_at`, which also bounds the run.
+    pub fn run_call(&mut self, out: &mut Out, kind: &str, arg: u64, script: &[(u32, IntCmd)], clr_at: u32) -> &'static str {
+        if self.dead { return "panic"; }
+        assert!(!self.intfns.is_empty(), "run scenarios need interrupt device 1");
+        for (k, &(lo, hi)) in self.timer_cfg.iter().enumerate() { assert!(lo == hi, "timer {k} must be exact in run scenarios"); }
+        {
+            let mut st = self.intfns[0].lock().unwrap();
+            st.scripted = true; st.polls = 0; st.clr_at = clr_at;
+            st.script = script.iter().copied().collect();
+            st.mcr = Some(self.sim.mcr().clone());
+        }
+        let r = js::guard(|| match kind {
+            "run" => self.sim.run(),
+            "limit" => self.sim.run_with_limit(arg),
+            "over" => self.sim.step_over(),
+            "out" => self.sim.step_out(),
+            "pcne" => { let a = arg as u16; self.sim.run_while(move |s| s.pc != a) }
+            _ => panic!("unknown run kind"),
+        });
+        let (polls, cmds): (u32, std::collections::HashMap<u32, IntCmd>) = {
+            let mut st = self.intfns[0].lock().unwrap();
+            st.scripted = false;
+            (st.polls, st.script.clone())
+        };
+        match r {
+            Err(()) => { self.panic(out, "run"); "panic" }
+            Ok(r) => {
+                let others: Vec<IntCmd> = self.intfns.iter().skip(1).map(|c| c.lock().unwrap().cmd).collect();
+                let draws: Vec<u32> = self.timer_cfg.iter().map(|&(lo, _)| lo).collect();
+                let envs: Vec<Value> = (1..=polls).map(|i| {
+                    let c = cmds.get(&i).copied().unwrap_or_default();
+                    let mut ints = vec![json!({"k": c.k, "vect": c.vect, "prio": c.prio})];
+                    for o in &others { ints.push(json!({"k": o.k, "vect": o.vect, "prio": o.prio})); }
+                    json!({"lockK": 0, "lockD": 0, "ints": ints, "draws": draws, "clr": (i == clr_at) as u8})
+                }).collect();
+                let p = self.proj();
+                let name = res_name(&r);
+                out.emit(json!({"ev": "Run", "run": self.run, "kind": kind, "arg": arg, "envs": envs, "nsteps": polls, "res": name, "proj": p}));
+                name
+            }
+        }
+    }
+    /// FNV-1a digest of the whole memory (values and masks), as two 30-bit integers.
+    pub fn mem_digest(&self) -> (u32, u32) {
+        let mut h: u64 = 0xcbf29ce484222325;
+        for a in 0..=u16::MAX {
+            let x = self.sim.mem[a];
+            for b in [x.get() as u8, (x.get() >> 8) as u8, x.verif_mask() as u8, (x.verif_mask() >> 8) as u8] {
+                h ^= b as u64; h = h.wrapping_mul(0x100000001b3);
+            }
+        }
+        ((h & 0x3FFF_FFFF) as u32, ((h >> 32) & 0x3FFF_FFFF) as u32)
+    }
     pub fn end(&mut self, out: &mut Out) {
         if self.dead { return; }
         let p = self.proj();
-        out.emit(json!({"ev": "End", "run": self.run, "proj": p}));
+        let (h1, h2) = self.mem_digest();
+        let fin = json!({"pc": p["pc"], "psr": p["psr"], "regs": p["regs"], "ssp": p["ssp"], "icount": p["icount"],
+                         "disp": p["disp"], "kbd": p["kbd"], "fno": p["fno"], "memh": [h1, h2], "hit_halt": p["hit_halt"]});
+        out.emit(json!({"ev": "End", "run": self.run, "proj": p, "final": fin}));
     }
 }
